@@ -36,6 +36,7 @@ type Config struct {
 	PathKeys     bool         `json:"pathKeys,omitempty"`   // the key universe holds a key below another key (refused uploads are legitimate on fs)
 	HostBase     bool         `json:"hostBase,omitempty"`   // WithHostBucketBase("sim"): about half of the bucket-addressed requests travel virtual-host style
 	AmzDate      bool         `json:"amzDate,omitempty"`    // requests carry x-amz-date with the simulated clock's current time (always within the skew limit)
+	DirOrder     bool         `json:"dirOrder,omitempty"`   // the simulated disk hands out directory entries in hash order, not by name
 	LateEOF      bool         `json:"lateEOF,omitempty"`    // request bodies report EOF in a separate read (HTTP/2, buffering middleware)
 	LinUploads   [][2]string  `json:"linUploads,omitempty"` // (bucket, key) of multipart uploads initiated by setup (C07)
 }
